@@ -77,7 +77,7 @@ void snoopy_message_generateFromFormat (
     // Loop all the way to the end of log message format specification
     while (strlen(fmtPos_nextFormatTag) > 0) {
         size_t lengthToCopy;
-        char  dataSourceTag[100];
+        char *dataSourceTag;
         int   dataSourceTagLength;
         char *fmtPos_dataSourceTagArg;
         const char *dataSourceNamePtr;
@@ -109,8 +109,9 @@ void snoopy_message_generateFromFormat (
             free(dataSourceMsg);
             return; // Should be "break;" but SonarCloud is complaining about it
         }
-        dataSourceTag[0]    = '\0';
         dataSourceTagLength = (int)((fmtPos_nextFormatTagClose-1) - (fmtPos_nextFormatTag+2) + 2);
+        dataSourceTag       = malloc(dataSourceTagLength);   // Tag can be as long as the format itself, size the buffer accordingly
+        dataSourceTag[0]    = '\0';
         snprintf(dataSourceTag, dataSourceTagLength, "%s", fmtPos_nextFormatTag + 2);
 
         // If data source tag contains ":", then split it into data source name and data source argument
@@ -132,6 +133,7 @@ void snoopy_message_generateFromFormat (
             snoopy_message_append(logMessage, logMessageBufSize, "[ERROR: Data source '");
             snoopy_message_append(logMessage, logMessageBufSize, dataSourceNamePtr);
             snoopy_message_append(logMessage, logMessageBufSize, "' not found.]");
+            free(dataSourceTag);
             free(dataSourceMsg);
             return; // Should be "break;" but SonarCloud is complaining about it
         }
@@ -148,6 +150,8 @@ void snoopy_message_generateFromFormat (
         } else {
             snoopy_message_append(logMessage, logMessageBufSize, dataSourceMsg);
         }
+
+        free(dataSourceTag);
 
         // Where to start next iteration
         fmtPos_cur = fmtPos_nextFormatTagClose + 1;
